@@ -10,9 +10,9 @@ ID = "C19"
 LEVEL = "exploration"
 RULE = (
     "the finite matrix target {module function, instance method, classmethod, staticmethod, plain attribute} x "
-    "replacement {default mock, plain function, bound method, callable object, new_callable=, non-callable} x "
+    "replacement {default mock, plain function, bound method, callable object, an explicitly passed Mock, new_callable=, non-callable} x "
     "activation {context manager, function decorator, class decorator (goes through patcher.copy()), start/stop} x exit path {normal, exception, stop(), stopall()} x "
-    "composition {single, nested on the same target, sequential} x entry point {patch('mod.attr'), patch.object} is "
+    "composition {single, nested on the same target with a second replacement, nested with the SAME replacement object, sequential} x entry point {patch('mod.attr'), patch.object} is "
     "ENUMERATED COMPLETELY on a synthetic module registered in sys.modules. Inside the patch the sync call, "
     ".asynq().value(), yielding .asynq() from a task and asyncio.run(.asyncio()) must all reach the replacement with the "
     "same recorded arguments (ending with the given ones) and return the same result; a non-callable replacement must be "
@@ -23,10 +23,10 @@ ASSUMPTIONS = ["unittest.mock itself is trusted"]
 UNIT_TIMEOUT = {"quick": 200, "thorough": 600}
 
 TARGETS = ["fn", "meth", "cmeth", "smeth", "const"]
-REPLS = ["default", "function", "bound", "callable_obj", "new_callable", "noncallable"]
+REPLS = ["default", "function", "bound", "callable_obj", "explicit_mock", "new_callable", "noncallable"]
 ACTS = ["with", "decorator", "classdeco", "startstop"]
 EXITS = ["normal", "exception", "stopall"]
-COMPS = ["single", "nested", "sequential"]
+COMPS = ["single", "nested", "nested_same_replacement", "sequential"]
 ENTRIES = ["patch", "patch.object"]
 
 
@@ -116,6 +116,8 @@ def make_replacement(kind, rec):
         return {"new": rec.method}, None
     if kind == "callable_obj":
         return {"new": CallableObj(rec)}, None
+    if kind == "explicit_mock":
+        return {"new": mock.MagicMock()}, "mock"
     if kind == "new_callable":
         return {"new_callable": mock.MagicMock}, "mock"
     if kind == "noncallable":
@@ -139,7 +141,7 @@ def check_inside(get, entered, rec, repl, target, viol):
             viol.append(("noncallable-not-installed-as-is", {"observed": repr(get())[:80]}))
         return 0
     cur = get()
-    if entered is not None and repl in ("default", "new_callable"):
+    if entered is not None and repl in ("default", "new_callable", "explicit_mock"):
         entered.return_value = ("replaced", "mock")
 
     @A()
@@ -152,7 +154,7 @@ def check_inside(get, entered, rec, repl, target, viol):
     recorded = []
 
     def calls_so_far():
-        if repl in ("default", "new_callable"):
+        if repl in ("default", "new_callable", "explicit_mock"):
             return [(tuple(c.args), tuple(sorted(c.kwargs.items()))) for c in entered.call_args_list]
         return list(rec.calls)
 
@@ -203,21 +205,29 @@ def run_cell(target, repl, act, exit_path, comp, entry):
     viol = []
     nconv = [0]
 
-    def mk(rec):
-        kw, _ = make_replacement(repl, rec)
-        if entry == "patch":
-            return amock.patch(dotted, **kw)
-        return amock.patch.object(owner, name, **kw)
+    shared_kw = {}
+
+    def mk(rec, same_as_outer=False):
+        if same_as_outer and "kw" in shared_kw:
+            kw = shared_kw["kw"]  # the very same replacement object as the enclosing patch
+        else:
+            kw, _ = make_replacement(repl, rec)
+            shared_kw.setdefault("kw", kw)
+        p = amock.patch(dotted, **kw) if entry == "patch" else amock.patch.object(owner, name, **kw)
+        p._c19_new = kw.get("new")
+        return p
 
     def use(p, rec, depth=0):
         """Activate patcher p, check inside, leave through exit_path. Returns nothing; appends violations."""
+        given_new = getattr(p, "_c19_new", None)
         if act == "with":
             try:
                 with p as entered:
                     nconv[0] += check_inside(get, entered, rec, repl, target, viol)
-                    if comp == "nested" and depth == 0:
-                        rec2 = Recorder()
-                        use(mk(rec2), rec2, 1)
+                    if comp in ("nested", "nested_same_replacement") and depth == 0:
+                        same = comp == "nested_same_replacement"
+                        rec2 = rec if same else Recorder()
+                        use(mk(rec2, same), rec2, 1)
                         # back in the outer patch: still the outer replacement
                         nconv[0] += check_inside(get, entered, rec, repl, target, viol)
                     if exit_path == "exception":
@@ -229,13 +239,16 @@ def run_cell(target, repl, act, exit_path, comp, entry):
                 if act == "classdeco":
                     margs = margs[1:]  # self
                 entered = margs[0] if margs else None
+                if repl == "explicit_mock":
+                    entered = given_new  # with an explicit `new` the decorator passes nothing
                 if repl in ("default", "new_callable") and entered is None:
                     viol.append(("decorator-did-not-pass-the-mock", {}))
                     return
                 nconv[0] += check_inside(get, entered, rec, repl, target, viol)
-                if comp == "nested" and depth == 0:
-                    rec2 = Recorder()
-                    use(mk(rec2), rec2, 1)
+                if comp in ("nested", "nested_same_replacement") and depth == 0:
+                    same = comp == "nested_same_replacement"
+                    rec2 = rec if same else Recorder()
+                    use(mk(rec2, same), rec2, 1)
                     nconv[0] += check_inside(get, entered, rec, repl, target, viol)
                 if exit_path == "exception":
                     raise UserErr(("leave",))
@@ -254,9 +267,10 @@ def run_cell(target, repl, act, exit_path, comp, entry):
             entered = p.start()
             try:
                 nconv[0] += check_inside(get, entered, rec, repl, target, viol)
-                if comp == "nested" and depth == 0:
-                    rec2 = Recorder()
-                    use(mk(rec2), rec2, 1)
+                if comp in ("nested", "nested_same_replacement") and depth == 0:
+                    same = comp == "nested_same_replacement"
+                    rec2 = rec if same else Recorder()
+                    use(mk(rec2, same), rec2, 1)
                     nconv[0] += check_inside(get, entered, rec, repl, target, viol)
                 if exit_path == "exception":
                     raise UserErr(("leave",))
@@ -305,6 +319,8 @@ def cells():
                     if e == "stopall" and a != "startstop":
                         continue
                     for comp in COMPS:
+                        if comp == "nested_same_replacement" and r in ("default", "new_callable"):
+                            continue  # those create a fresh mock per patch; nothing to share
                         for entry in ENTRIES:
                             out.append((t, r, a, e, comp, entry))
     return out
